@@ -3,7 +3,7 @@
 # Confirms a seeded change in a fresh scratch worktree of /repo HEAD~fixes (the
 # pinned tree the agent worked on is HEAD at the time; we use current HEAD):
 #   patch applies; full suite passes with it; demo fails with it; demo passes without it.
-set -u
+set -u; EXTRA=${EXTRA:-}
 export GOFLAGS=-mod=mod GOPROXY=off GOSUMDB=off GOTOOLCHAIN=local
 ID=$1; PKG=$2; PAT=$3; SRC=${4:-/tmp/seed/$ID-out}
 WT=$(mktemp -d /tmp/sc.XXXXXX)
